@@ -28,6 +28,10 @@ public:
 	}
 	States::SessionStates getState() { return _state; }
 	unsigned expected() { return _next_receive_seq; }
+	void set_last_received(const Tickval& v) { _last_received = v; }
+	void set_last_sent(const Tickval& v) { _last_sent = v; }
+	void set_state(States::SessionStates st) { _state = st; }
+	void tick() { heartbeat_service(); }
 };
 struct Fx
 {
@@ -90,12 +94,34 @@ static void logon_gap()
 	if (st == States::st_session_terminated || st == States::st_logoff_sent || f.ss->is_shutdown())
 		REPORT("{\"scenario\":\"logon_gap\",\"history\":\"Logon reply with MsgSeqNum 4, expected 1\",\"state\":%d,\"session_shut_down\":%d}", (int)st, (int)f.ss->is_shutdown());
 }
+// C22: one supervision tick for each combination of idle / silent seconds around the thresholds (H = 30 s, margin 36 s) and both test-request states
+static void heartbeat_ticks()
+{
+	for (int idle : { 28, 31 }) for (int silent : { 35, 38 }) for (int pending = 0; pending < 2; ++pending)
+	{
+		Fx f; f.logon(1);
+		f.conn->set_hb_interval(30);
+		f.conn->_output.clear();
+		Tickval now(true);
+		f.ss->set_last_sent(Tickval(now.get_ticks() - idle * Tickval::second));
+		f.ss->set_last_received(Tickval(now.get_ticks() - silent * Tickval::second));
+		f.ss->set_state(pending ? States::st_test_request_sent : States::st_continuous);
+		f.ss->tick();
+		const bool hb = f.sent("35=0"), tr = f.sent("35=1"), lo = f.sent("35=5");
+		const bool want_hb = idle >= 30, want_tr = silent > 36 && !pending, want_lo = silent > 36 && pending;
+		if (hb != want_hb || tr != want_tr || lo != want_lo)
+			REPORT("{\"scenario\":\"tick\",\"idle_s\":%d,\"silent_s\":%d,\"test_request_pending\":%d,\"heartbeat\":%d,\"test_request\":%d,\"logout\":%d}", idle, silent, pending, (int)hb, (int)tr, (int)lo);
+		if (want_tr && f.ss->getState() != States::st_test_request_sent) REPORT("{\"scenario\":\"tick\",\"state_after_test_request\":%d}", (int)f.ss->getState());
+		if (want_lo && f.ss->getState() != States::st_session_terminated) REPORT("{\"scenario\":\"tick\",\"state_after_logout\":%d}", (int)f.ss->getState());
+	}
+}
 int main(int argc, char **argv)
 {
 	const std::string which(argc > 2 ? argv[2] : "all");
 	if (which == "gate" || which == "all") gate();
 	if (which == "second_gap" || which == "all") second_gap();
 	if (which == "logon_gap" || which == "all") logon_gap();
+	if (which == "tick" || which == "all") heartbeat_ticks();
 	printf("{\"search_done\":true,\"class\":\"%s\",\"mismatches\":%d}\n", which.c_str(), bad);
 	fflush(stdout);
 	_exit(bad ? 1 : 0);	// skip static destructors: session.cpp is compiled into this program and also lives in libfix8 (duplicate statics)
